@@ -31,7 +31,7 @@ CLAIMS = {
         note=TB + "Not decided: that the off state has finished propagating when the tolerance test stops the sweep (C03).",
         ref="DESIGN.md section 4 C04"),
     "C05": dict(
-        technique="idiom matcher for the first-match scan in its spellings (condition compared as a truth table); order-provenance and who-may-consume rules on the input-order registry; reference comparison of the mux laws, child-current sum, mux row of solve() and _find_domain (path summaries vs reference text); object-state rule on the phase loop",
+        technique="idiom matcher for the first-match scan in its spellings, including scans written as a tree of exits (exit conditions and exit values compared as a truth table); order-provenance and who-may-consume rules on the input-order registry; reference comparison of the mux laws, child-current sum, mux row of solve() and _find_domain (path summaries vs reference text); object-state rule on the phase loop",
         text="Static decision of all structural clauses: the selection is the ascending first-match scan over (not off and |v|!=0), the declared input order is stored, preserved and read back position by position and the unordered graph view is consumed nowhere else, current goes to the selected input only, one index is used for voltage / per-input resistance / lookup, the mux row reports the selected input as Parent / Rail in / Vin, _find_domain follows the first input with voltage to its root, and the no-live-input rows are dead rows.",
         note=TB + "Not decided: numeric values (C01/C03). The agreement between the solver's selection (off-state and voltage) and _find_domain's (voltage only) relies on C04-R2 (OFF implies 0 V).",
         ref="DESIGN.md section 4 C05"),
@@ -41,7 +41,7 @@ CLAIMS = {
         note=TB + "pandas evaluates boolean selections, .sum(), .values[0] as modelled (trusted contract). Row order is not decided. The identity 'per-phase energies add up to the energy of the average' is derived from the decided records (linear), not separately checked.",
         ref="DESIGN.md section 4 C07"),
     "C08": dict(
-        technique="canonical pandas-selection records of rail_rep() (filter, column, reducer per cell) compared with the expected table; argument-forwarding, totality (all paths return) and emptiness-guard rules; reference comparison of the Rail in label in solve()",
+        technique="canonical pandas-selection records of rail_rep() (filter, column, reducer per cell; nested helpers inlined statement by statement) compared with the expected table; argument-forwarding, totality (all paths return) and emptiness-guard rules; reference comparison of the Rail in label in solve()",
         text="Static decision of every cell of the rail report (which rows, which column, sum or first), of the warnings union, of the skip of empty (rail, phase) cells, of totality of the function, of the forwarding of all analysis options to solve(), and of the labelling of rows with the rail that actually feeds them.",
         note=TB + "pandas semantics are a trusted contract. Voltage is decided as 'first Vin of the rows fed by the rail', which equals the owner's Vout by C01-R6.",
         ref="DESIGN.md section 4 C08"),
@@ -52,7 +52,7 @@ CLAIMS = {
         ref="DESIGN.md section 4 C09"),
     "C06": dict(
         technique="guard-row comparison of law summaries over the phase atoms (has-table / phase-listed); call-argument provenance; loop-carried dependence (reaching definitions over the phase loop's back edge)",
-        text="Static decision of the mapping phase -> behaviour for every kind, of the plumbing of the phase and per-node phase table from solve() to every law, of phase independence (no scalar, container or object state carried between phase iterations except append-only accumulators; a cache rebuilt only under a condition counts as carried), and of the phase-list / unknown-phase prologue.",
+        text="Static decision of the mapping phase -> behaviour for every kind, of the plumbing of the phase and per-node phase table from solve() to every law, of phase independence (no scalar, container or object state carried between phase iterations except append-only accumulators; a cache rebuilt only under a condition counts as carried), and of the phase-list / unknown-phase prologue (phase names matched by equality, never by containment in a name).",
         note=TB + "Inner loops are assumed to execute at least once in the loop-carried analysis (a carry that exists only on a zero-trip inner loop is missed, never invented). Not decided: numeric values per phase.",
         ref="DESIGN.md section 4 C06"),
     "C10": dict(
@@ -86,14 +86,14 @@ CLAIMS = {
         note=TB + "warnings.warn counts as a raise (it is one under -W error). Not decided: exceptions thrown by rustworkx for reasons the repository's own checks do not cover; subscript loads with an absent key are tracked for the four name registries only.",
         ref="DESIGN.md section 4 C15"),
     "C16": dict(
-        technique="registry lock-step, key-is-a-component and link/registry pairing on path summaries; order-provenance; iteration-state analysis of the per-node loops (upward-exposed scalars, containers read at foreign slots); cache-refresh must-precede rule; column-routing tables of the configuration reports",
-        text="Static decision of the bookkeeping that makes results history-independent: name registries move in lock-step and only ever gain keys that are component names, the input-order registry holds indices and is updated with every link, index-hole-safe vector sizes, nothing carried from one node to the next in solve(), phases(), params()/limits(), tree() and save() except through the node's own parent, caches rebuilt unconditionally before every analysis, and each parameter / limit / per-phase value routed to the column that names it.",
+        technique="registry lock-step, key-is-a-component and link/registry pairing on path summaries; order-provenance; iteration-state analysis of the per-node loops (upward-exposed scalars, containers read at foreign slots); cache-refresh must-precede rule; column-routing tables of the configuration reports and no branching on the truth value of a configured number; closed-vocabulary reference comparison of del_comp (path summaries vs reference text sa/spec_edit.py)",
+        text="Static decision of the bookkeeping that makes results history-independent: name registries move in lock-step and only ever gain keys that are component names, the input-order registry holds indices and is updated with every link, index-hole-safe vector sizes, nothing carried from one node to the next in solve(), phases(), params()/limits(), tree() and save() except through the node's own parent, caches rebuilt unconditionally before every analysis, each parameter / limit / per-phase value routed to the column that names it (a configured 0 included), and del_comp leaving registries, links and the input priority order of re-linked childs exactly as its reference text does.",
         note=TB + "Not decided: that every report 'succeeds' for every history in the presence of library exceptions.",
         ref="DESIGN.md section 4 C16"),
     "C17": dict(
         technique="transitive effect sets of the analyses over the call graph (object state, graph, node payloads); definite-alias store analysis on arguments and module constants with call-site re-classification; try/finally restore pairing",
         text="Static decision that no analysis writes anything on the System but the caches every analysis rebuilds, that no law method, report helper or diagram function stores into an argument, a definite alias of one or a shared module constant, and that every battery parameter written by batt_life is restored from its saved original in a finally clause enclosing all the writes.",
-        note=TB + "Alias reasoning is definite (plain assignment chains, one level of shallow copy), not may: a write reaching a shared constant only through a container slot or a call is missed (may-alias would false-alarm on _sys_init). Global state of matplotlib / tqdm is not considered.",
+        note=TB + "Alias reasoning is definite (plain assignment chains, elements taken out of an argument by subscript or .get(), one level of shallow copy), not may: a write reaching a shared constant only through a container slot or a call is missed (may-alias would false-alarm on _sys_init). Global state of matplotlib / tqdm is not considered.",
         ref="DESIGN.md section 4 C17"),
     "C18": dict(
         technique="path summary of the depletion-loop body with events in program order: store-before-call ordering, provenance of the callback's arguments, loop-condition / log-guard agreement by propositional implication",
@@ -102,7 +102,7 @@ CLAIMS = {
         ref="DESIGN.md section 4 C18"),
     "C19": dict(
         technique="reference comparison of path summaries (guards as formulas, loops as one symbolic iteration, ordered store / call effects) of _diag, its node helper and _prep_loss with reference texts that are parsed, never executed; definite-alias store analysis (shared with C17); term identity for the colour mix and for the decimals of every SI band",
-        text="Static decision of the structure of the graph that is built: every component added exactly once (cluster iff grouping on and group non-empty), one edge per graph edge through the inverse name map, legend only for heat diagrams, override precedence default -> kind -> name, no mutation of configuration or defaults, the heat mix / scale / duration-weighted mean, own-row label and colour, and the SI band table (three significant digits).",
+        text="Static decision of the structure of the graph that is built: every component added exactly once (cluster iff grouping on and group non-empty), one edge per graph edge through the inverse name map (links never filed in a mapping under one endpoint), legend only for heat diagrams, override precedence default -> kind -> name, no mutation of configuration or defaults, the heat mix / scale / duration-weighted mean, own-row label and colour, and the SI band table (three significant digits).",
         note=TB + "Not decided: what Graphviz renders from the graph. The reference texts (sa/spec_diag.py) are part of the trusted base. Constructs the summary engine does not model (lambdas, dispatch tables, dict.fromkeys) end in ANALYSIS-ERROR, as does a band table that is not an if / elif chain.",
         ref="DESIGN.md section 4 C19"),
     "C20": dict(
